@@ -572,6 +572,14 @@ func runUnsat(c *Ctx) {
 
 	// ---- U7: resolver: late unsatisfied detection precedes any execution
 	rlit, rfields := errLiteral(res)
+	if rlit == nil {
+		// the planning step of the resolver may have been extracted: look in its private helpers
+		for _, g := range p.Region(res) {
+			if l2, f2 := errLiteral(g); l2 != nil {
+				rlit, rfields = l2, f2
+			}
+		}
+	}
 	if rlit == nil || rfields["Args"] == nil {
 		c.R.Add("UNSAT-U7", "resolver|error-literal", "resolver", p.Pos(res.Pos()), false, "the resolver reports late-detected unsatisfied arguments with the dedicated error type", "no literal")
 		return
@@ -579,7 +587,8 @@ func runUnsat(c *Ctx) {
 	runsat := rfields["Args"]
 	for _, ci := range p.RegionCalls(res) {
 		if ci.Common().StaticCallee() == exec {
-			ok := lenPositive(p.ILits(ci.Block()), runsat, false)
+			// what is known where the converter executes, including what a nil error of the planning step implies
+			ok := lenPositive(p.ExpandLitsKeep(p.ILits(ci.Block())), runsat, false)
 			c.R.Add("UNSAT-U7", "resolver|execute-only-when-none-unsatisfied", "resolver", p.InstrPos(ci), ok,
 				"converters execute only after all paths were planned and none was found unsatisfied", fmt.Sprintf("ok=%v", ok))
 		}
@@ -588,10 +597,12 @@ func runUnsat(c *Ctx) {
 	for _, r := range core.Returns(res) {
 		for _, v := range core.ReturnOperand(r, len(r.Results)-1) {
 			if core.Strip(v) == ssa.Value(rlit) {
-				for _, st := range storesInBlock(r.Block()) {
-					_ = st
-				}
 				rerr = true
+			}
+			for _, sv := range p.ISources(v) {
+				if core.Strip(sv) == ssa.Value(rlit) {
+					rerr = true
+				}
 			}
 		}
 	}
